@@ -248,6 +248,19 @@ impl Fun {
   }
 }
 
+#[cfg(feature = "verif")]
+impl Fun {
+  /// The arity of this function as (kind, min, max) with kind
+  /// 0 = fixed, 1 = variadic, 2 = default
+  pub fn verif_arity(&self) -> (u8, u8, u8) {
+    match self.arity {
+      Arity::Fixed(arity) => (0, arity, arity),
+      Arity::Variadic(arity) => (1, arity, u8::MAX),
+      Arity::Default(min, max) => (2, min, max),
+    }
+  }
+}
+
 impl fmt::Display for Fun {
   fn fmt(&self, f: &mut fmt::Formatter<'_>) -> fmt::Result {
     write!(f, "<fn {} {:p}>", self.name, self)
